@@ -102,6 +102,11 @@ CLAIMED = {
    text="Error locations: every token string of length <= 2 (thorough <= 3 in 8 contexts) over the 46-token alphabet in 22 contexts x {scss, indented}; every built-in x argument tuple of arity <= 2 over the 40-value universe; 49 value positions x the universe; every error!() corpus input (thorough: every single-token deletion of compiling corpus inputs); 12 interpolated strings x 18 re-lexed positions x 3 prefixes; 16 failing snippets x 6 load rules x {direct, through an intermediate file, inside a mixin / function defined in the imported file}: each error names a file of the compilation, carries that file's text, begin <= end lie inside it, both renderings succeed and start with `Error: <message>` and show the location, ASCII mode has no box characters. @error: 40 values x 5 placements, message = inspect() text, line = the directive's. Delivery: 12 program shapes x 7x7 @debug/@warn statement pairs x {one file, @import, @use as *} x 5 executions on one thread (plain, quiet, quiet+ASCII, ASCII, plain again): kind, message, file, line and order equal the reference interpreter's log with repeated (directive, message) warnings collapsed; nothing under quiet. Silence: a child process compiling the logging, failing and warning-raising programs with a collecting Logger leaves both process streams empty.",
    note="Whether a quoted string reaches the Logger with its quotes in @warn is not compared (grass delivers `\"x\"`, dart-sass `x`; the property does not fix it). Loop heads with huge bounds are excluded from the value positions (unbounded loops).",
    design="§3 C19"),
+ "C04": dict(
+   technique="exhaustive enumeration of rule trees to bounded depth and width, each compiled and read back by the independent CSS reader into (at-rule path, selector list, declarations) blocks, compared in order with a reference that builds the output tree by the language's placement rules",
+   text="All trees of depth <= 2 over style rules with 12 selector forms (`&` alone, with suffix, in a compound, repeated, inside :not(), in lists, after a combinator), nested properties with and without a value, @media, @supports, an unknown at-rule, @at-root with 7 queries (none, without: rule / media / supports / all, with: rule / media) and declarations, each child list alone and with a declaration or rule sibling before, after and around it; all single-child chains of depth 3 (5, thorough 12 selector forms), depth 4 and (thorough) depth 5; all trees of depth 3 (thorough 4) with sibling pairs at every level over reduced alphabets (180 k trees quick, 4.5 M thorough). The ordered list of non-empty blocks must equal the reference's, and a tree the reference rejects (declaration outside a rule, top-level `&`, suffix on a parent that cannot take one) must be rejected.",
+   note="The reference (mc/src/checks/c04.rs, `Tree`) follows the placement rules of the reference implementation: a node is appended to the nearest ancestor that is not transparent for it, a parent that already has a visible following sibling is copied, @at-root appends copies of the included ancestors to the root it selects and reuses the run of included ancestors that reaches the root. Media queries are single features (merging is C17's subject); keyframes are outside the alphabet.",
+   design="§3 C04, A.2"),
 }
 
 NOT_YET = "not claimed in this revision: the check described in DESIGN.md is not built yet (work in progress; no alternative technique is substituted)"
